@@ -64,6 +64,21 @@ def _ar(run, case, ctx, qclasses):
         got = _exc(ex)
     if got != want:
         run.mismatch('aranges.entries', tag, brief, want, got)
+    # the every-set-header view (what the readelf clone prints): sets that hold only their terminator appear as one null tuple.
+    # It is reached through the documented keyword of ARanges._get_entries; a tree without that entry point is not judged.
+    ge = getattr(ar, '_get_entries', None)
+    if ge is not None and 'entE' in case:
+        wantE = sorted((0 if z else qa[a], l, cus[k - 1], sets[k - 1][0], sets[k - 1][1], sets[k - 1][2], sets[k - 1][3])
+                       for a, l, k, z in case['entE'])
+        try:
+            gotE = sorted((e.begin_addr, e.length, e.info_offset, e.unit_length, e.version, e.address_size, e.segment_size)
+                          for e in ge(need_empty=True))
+        except TypeError:
+            gotE = None                      # signature changed: vocabulary, not behaviour
+        except Exception as ex:
+            gotE = _exc(ex)
+        if gotE is not None and gotE != wantE:
+            run.mismatch('aranges.entries_with_empty_sets', tag, brief, wantE, gotE)
     # lookups
     queries = [(qa[i], case['ans'][i], case['cls'][i]) for i in range(len(qa))]
     queries += [(x, 0, 'farbelow') for x in ctx['below_n']] + [(x, 0, 'farabove') for x in ctx['above_n']]
